@@ -630,11 +630,19 @@ func writeFieldReadByter(name string, typ FieldType, w *iohelp.ErrorWriter, sett
 			writeLengthCheck(w, "4", depth)
 		}
 
+		if safe {
+			// validate the count against the remaining input before allocating for it
+			if sz, ok := fixedSizeTypes[typ.Array.Simple]; ok {
+				writeLengthCheck(w, "4+int(iohelp.ReadUint32Bytes(buf[at:]))*"+strconv.Itoa(int(sz)), depth)
+			} else if _, isRecord := settings.customRecordTypes[typ.Array.Simple]; !isRecord {
+				// strings, enums, nested arrays and maps all occupy at least one byte each
+				writeLengthCheck(w, "4+int(iohelp.ReadUint32Bytes(buf[at:]))", depth)
+			}
+		}
 		writeLineWithTabs(w, "%ASGN = make([]%TYPE, iohelp.ReadUint32Bytes(buf[at:]))", depth, name, typ.Array.goString(settings))
 		writeLineWithTabs(w, "at += 4", depth)
 		if safe {
-			if sz, ok := fixedSizeTypes[typ.Array.Simple]; ok {
-				writeLengthCheck(w, "len(%ASGN)*"+strconv.Itoa(int(sz)), depth, name)
+			if _, ok := fixedSizeTypes[typ.Array.Simple]; ok {
 				safe = false
 			}
 		}
@@ -649,6 +657,11 @@ func writeFieldReadByter(name string, typ FieldType, w *iohelp.ErrorWriter, sett
 		writeLineWithTabs(w, "}", depth)
 	} else if typ.Map != nil {
 		lnName := lengthName(settings)
+		if safe {
+			// every entry occupies at least one byte (keys are primitives)
+			writeLengthCheck(w, "4", depth)
+			writeLengthCheck(w, "4+int(iohelp.ReadUint32Bytes(buf[at:]))", depth)
+		}
 		writeLineWithTabs(w, lnName+" := iohelp.ReadUint32Bytes(buf[at:])", depth)
 		writeLineWithTabs(w, "at += 4", depth)
 		writeLineWithTabs(w, "%ASGN = make(%TYPE,"+lnName+")", depth, name, typ.Map.goString(settings))
